@@ -135,7 +135,5 @@ _cache = {}
 
 
 def suggest_for(src):
-    k = id(src)
-    if k not in _cache or _cache[k][0] is not src:
-        _cache[k] = (src, SuggestModel(src))
-    return _cache[k][1]
+    from .source import memo_on
+    return memo_on(src, 'suggest', lambda: SuggestModel(src))
